@@ -1505,7 +1505,7 @@ class Stream(AbstractStream):
             if energy_balance: H = sum([i.H for i in streams], Q)
             self.P = P = min([i.P for i in streams])
             if conserve_phases:
-                phases = self.phase + ''.join([i.phase for i in others])
+                phases = self.phase + ''.join([i.phase for i in others if isa(i, Stream)])
                 self.phases = phases
             if vle:
                 self._imol.mix_from([i._imol for i in streams])
@@ -1523,7 +1523,7 @@ class Stream(AbstractStream):
                         try:
                             self.H = H
                         except:
-                            self.phases = self.phase + ''.join([i.phase for i in others])
+                            self.phases = self.phase + ''.join([i.phase for i in others if isa(i, Stream)])
                             self._imol.mix_from([i._imol for i in streams])
                             self.H = H
                 else:
